@@ -17,6 +17,7 @@ Encodings (what of Python's semantics they assume) -- see DESIGN.md 3.4:
 from __future__ import annotations
 
 import itertools
+import os
 import threading
 import z3
 
@@ -37,6 +38,33 @@ class Unsupported(Exception):
 
 class PathLimit(Exception):
     """A bounded-unrolling limit was reached on this path."""
+
+
+SECOND_SOLVER = os.environ.get('PYVC_NO_CVC5') is None and os.path.exists('/usr/bin/cvc5')
+CVC5_SECONDS = [0.0, 0]      # time spent in / calls made to the second back end by this process
+
+
+def _cvc5_unsat(smt2, timeout_ms):
+    """-> True iff cvc5 proves the query unsatisfiable within the budget (anything else, including trouble running it: False)"""
+    import subprocess, tempfile, time as _time
+    t0 = _time.time()
+    try:
+        with tempfile.NamedTemporaryFile('w', suffix='.smt2', delete=False) as f:
+            f.write('(set-logic ALL)\n' + smt2)
+            name = f.name
+        try:
+            if os.environ.get('PYVC_KEEP_SMT2'):
+                import shutil; shutil.copy(name, os.path.join(os.environ['PYVC_KEEP_SMT2'], os.path.basename(name)))
+            out = subprocess.run(['/usr/bin/cvc5', f'--tlimit={int(timeout_ms)}', name], capture_output=True, text=True,
+                                 timeout=timeout_ms / 1000 + 5).stdout.strip().splitlines()
+        finally:
+            os.unlink(name)
+        return bool(out) and out[0].strip() == 'unsat'
+    except Exception:
+        return False
+    finally:
+        CVC5_SECONDS[0] += _time.time() - t0
+        CVC5_SECONDS[1] += 1
 
 
 def ctx() -> "PathCtx":
@@ -146,7 +174,7 @@ class PathCtx:
         self.assume(t if d else z3.Not(t))
         return d
 
-    def valid(self, goal):
+    def valid(self, goal, final=False):
         """Is goal valid under pc?  -> ('unsat'|'sat'|'unknown', model|None)"""
         if isinstance(goal, SBool):
             goal = goal.term
@@ -159,6 +187,13 @@ class PathCtx:
         self.solver_calls += 1
         r = str(self.solver.check())
         m = self.solver.model() if r == 'sat' else None
+        if r == 'unknown' and final and SECOND_SOLVER:
+            # second back end: the same query (path condition and negated goal, as z3 prints it) goes to cvc5; only its
+            # 'unsat' is used (a proof of the goal) -- 'sat' would need a model in the engine's terms to be replayed, so it
+            # stays undecided and the bounded stand-in serves the obligation
+            if _cvc5_unsat(self.solver.to_smt2(), self.timeout_ms):
+                r = 'unsat'
+                self.cvc5_unsat = getattr(self, 'cvc5_unsat', 0) + 1
         self.solver.pop()
         return r, m
 
@@ -283,6 +318,9 @@ def pow2(k):
     return SInt(p)
 
 
+CTX_SIMPLIFY_DIV = os.environ.get('PYVC_NO_DIVSIMP') is None
+
+
 def floordiv_mod(a, b):
     """Python divmod for ints; b must be known non-zero (caller raises ZeroDivisionError)."""
     if isinstance(a, (int, bool)) and isinstance(b, (int, bool)):
@@ -291,6 +329,10 @@ def floordiv_mod(a, b):
     if isinstance(b, (int, bool)) and int(b) > 0:
         return mk_int(at / bt), mk_int(at % bt)
     c = ctx()
+    if CTX_SIMPLIFY_DIV:
+        # slice clamping leaves if-then-else terms whose condition the path already decides (a length 'n if 0 <= n else 2n'):
+        # resolved, the same division asked for by body and spec gets the same (q, r) instead of two nonlinear copies
+        at, bt = ctx_simplify(at), ctx_simplify(bt)
     # the same division occurring twice on a path (body and spec) yields the same q, r
     key = (canon_key(z3.simplify(at, som=True)), canon_key(z3.simplify(bt, som=True)))
     memo = c.__dict__.setdefault('div_memo', {})
